@@ -1218,8 +1218,11 @@ def audit(out: OutputBuffer, aconf: AuditConf, sshv: Optional[int] = None, print
                 payload_txt = '"{}"'.format(repr(payload).lstrip('b')[1:-1])
             if payload_txt == 'Protocol major versions differ.':
                 if sshv == 2 and aconf.ssh1:
-                    ret = audit(out, aconf, 1)
-                    out.write()
+                    ret = audit(out, aconf, 1, print_target=print_target)
+
+                    # When running against multiple targets, the calling worker thread collects the buffered output; writing it here would splice it into another target's results.
+                    if len(aconf.target_list) == 0:
+                        out.write()
                     return ret
             err = '[exception] error reading packet ({})'.format(payload_txt)
         else:
